@@ -172,6 +172,14 @@ impl Array {
                     b.dimensions
                 );
 
+                // the dot product of two vectors requires equal lengths
+                assert!(
+                    a.dimensions.len() >= 2 || b.dimensions.len() >= 2 || sum_len == b.dimensions[0],
+                    "error: the dimensions {:?}, and {:?} are not compatible",
+                    a.dimensions,
+                    b.dimensions
+                );
+
                 sum_len
             }
         };
